@@ -75,7 +75,7 @@ def main(argv=None):
     for i in range(nsh):
         out = os.path.join(rundir, f"shard{i}.jsonl")
         err = open(os.path.join(rundir, f"shard{i}.err"), "w")
-        p = subprocess.Popen([sys.executable, "-m", "pmv.shard", pid, "--tier", a.tier, "--seed", str(a.seed),
+        p = subprocess.Popen([sys.executable, os.path.join(HERE, "pmv", "shard_entry.py"), pid, "--tier", a.tier, "--seed", str(a.seed),
                               "--index", str(i), "--nshards", str(nsh), "--out", out],
                              cwd=HERE, stdout=err, stderr=subprocess.STDOUT)
         procs.append((i, p, out, err))
